@@ -228,7 +228,7 @@ func normalizeCompound(msgs []*auparse.AuditMessage) (*Event, error) {
 	for _, msg := range msgs {
 		switch msg.RecordType {
 		case auparse.AUDIT_SYSCALL:
-			delete(event.Data, "items")
+			// Its fields were taken by newEvent (without the item count).
 		case auparse.AUDIT_PATH:
 			addPathRecord(msg, event)
 		case auparse.AUDIT_SOCKADDR:
@@ -265,6 +265,11 @@ func newEvent(msg, syscall *auparse.AuditMessage) *Event {
 		return event
 	}
 	data = copyData(data)
+	if syscall != nil {
+		// The SYSCALL item count is dropped on purpose; an "items" key of
+		// another record is not.
+		delete(data, "items")
+	}
 
 	if result, found := data["result"]; found {
 		event.Result = result
